@@ -41,9 +41,47 @@ def extent_bytes(ct) -> int:
     return ct.extent // 8
 
 
+def anchor_universe() -> dict:
+    """
+    Deterministic completeness anchor: every integer width (int2..64, uint1..64 saturated and truncated) and every float
+    width, in an interleaved order so that most fields sit at non-byte-aligned offsets, plus arrays of odd-width elements.
+    Random universes cannot be relied upon to hit every width in a quick run.
+    """
+
+    def prim(kind, bits, cast="saturated"):
+        return {"t": kind, "bits": bits, "cast": cast}
+
+    fields = []
+    for b in range(1, 65):
+        fields.append(prim("uint", b, "saturated" if b % 2 else "truncated"))
+        if b >= 2:
+            fields.append(prim("int", b))
+        if b % 8 == 3:
+            fields.append({"t": "bool"})
+        if b % 16 == 5:
+            fields.append(prim("float", [16, 32, 64][(b // 16) % 3], "truncated" if b % 32 == 5 else "saturated"))
+    fields += [prim("uint", b, "truncated" if b % 2 else "saturated") for b in (3, 7, 9, 13, 17, 31, 33, 47, 63)]
+    types = []
+    per = 22
+    for i in range(0, len(fields), per):
+        attrs = [{"k": "field", "type": t, "name": f"f{j}", "doc": None} for j, t in enumerate(fields[i : i + per])]
+        types.append({"ns": ["anchor"], "name": f"W{i // per}", "major": 1, "minor": 0, "port_id": None, "kind": "struct", "deprecated": False, "doc": [],
+                      "body": {"union": False, "sealed": (i // per) % 2 == 0, "extent_extra": 1, "extent_bits": 4096, "attrs": attrs}})
+    arr_attrs = [
+        {"k": "field", "type": {"t": "farr", "elem": prim("int", 11), "n": 3}, "name": "a", "doc": None},
+        {"k": "field", "type": {"t": "varr", "elem": prim("uint", 5, "truncated"), "cap": 9, "incl": True}, "name": "b", "doc": None},
+        {"k": "field", "type": {"t": "varr", "elem": prim("int", 16), "cap": 4, "incl": True}, "name": "c", "doc": None},
+        {"k": "field", "type": {"t": "farr", "elem": prim("float", 16), "n": 2}, "name": "d", "doc": None},
+        {"k": "field", "type": {"t": "varr", "elem": prim("int", 33), "cap": 3, "incl": True}, "name": "e", "doc": None},
+    ]
+    types.append({"ns": ["anchor"], "name": "Arr", "major": 1, "minor": 0, "port_id": None, "kind": "struct", "deprecated": False, "doc": [],
+                  "body": {"union": False, "sealed": True, "extent_extra": 0, "attrs": arr_attrs}})
+    return {"roots": [{"name": "anchor", "types": types}]}
+
+
 @st.composite
-def job_strategy(draw, spec: dict) -> dict:
-    u = draw(dsdlgen.universe(profile="plain", max_types=spec.get("max_types", 5), max_roots=spec.get("max_roots", 2), **spec.get("gen_opts", {})))
+def job_strategy(draw, spec: dict, fixed_universe: typing.Optional[dict] = None) -> dict:
+    u = fixed_universe or draw(dsdlgen.universe(profile="plain", max_types=spec.get("max_types", 5), max_roots=spec.get("max_roots", 2), **spec.get("gen_opts", {})))
     L = lab.Lab(u)
     try:
         ctypes = L.ctypes
@@ -126,6 +164,26 @@ def draw_jobs(ctx: core.Ctx, n: int, spec: dict, seed_offset: int = 0) -> typing
         jobs.append(job)
 
     collect()
+    if spec.get("anchor", True):
+        anchor: typing.List[dict] = []
+
+        @hypothesis.seed(ctx.seed * 1000003 + seed_offset + 77)
+        @core.hsettings(5)
+        @hypothesis.given(job_strategy(dict(spec, n_values=max(1, spec.get("n_values", 0) // 4) if spec.get("n_values") else 0, prior_states=min(1, spec.get("prior_states", 0)), n_byte_batches=min(1, spec.get("n_byte_batches", 0))), fixed_universe=anchor_universe()))
+        def collect_anchor(job):
+            anchor.append(job)
+
+        collect_anchor()
+        # the first generated example is the minimal one (all zeros): merge the cases of all examples into one job
+        merged = anchor[-1]
+        seen = {json.dumps(c, sort_keys=True) for c in merged["cases"]}
+        for j in anchor[:-1]:
+            for c in j["cases"]:
+                k = json.dumps(c, sort_keys=True)
+                if k not in seen:
+                    seen.add(k)
+                    merged["cases"].append(c)
+        jobs = [merged] + jobs
     return jobs
 
 
